@@ -166,6 +166,7 @@ theorem okOn_sound {φ : Fact} {v : AbsVal} {a : Int} (h : φ.okOn v = true) (hm
 /-! ## types -/
 
 def inTy (P : Platform) (t : Ty) (v : Int) : Prop := tmin P t ≤ v ∧ v ≤ tmax P t
+instance (P : Platform) (t : Ty) (v : Int) : Decidable (inTy P t v) := by unfold inTy; exact inferInstance
 
 theorem top_mem {P : Platform} {t : Ty} {v : Int} (h : inTy P t v) : (top P t).mem v := range_mem h.1 h.2
 
@@ -358,14 +359,14 @@ theorem evalBin_inTy {P : Platform} {op : BinOp} {ta tb : Ty} {a b r : Int} (h :
     · simp at h; subst h; exact conv_inTy _ _ _
     · simp at h; subst h; exact conv_inTy _ _ _
 
+def cmpB (op : BinOp) (x y : Int) : Bool :=
+  match op with
+  | .lt => decide (x < y) | .le => decide (x ≤ y) | .gt => decide (x > y) | .ge => decide (x ≥ y)
+  | .eq => decide (x = y) | .ne => decide (x ≠ y) | _ => false
+
 theorem evalBin_cmp {P : Platform} {op : BinOp} {ta tb : Ty} {a b : Int} (hc : op.isCmp = true) :
-    evalBin P op ta tb a b = some (MiniC.b2i (
-      let x := conv P (uac P ta tb) a
-      let y := conv P (uac P ta tb) b
-      match op with
-      | .lt => decide (x < y) | .le => decide (x ≤ y) | .gt => decide (x > y) | .ge => decide (x ≥ y)
-      | .eq => decide (x = y) | .ne => decide (x ≠ y) | _ => false)) := by
-  cases op <;> simp [BinOp.isCmp] at hc <;> simp [evalBin, BinOp.isShift]
+    evalBin P op ta tb a b = some (MiniC.b2i (cmpB op (conv P (uac P ta tb) a) (conv P (uac P ta tb) b))) := by
+  cases op <;> simp [BinOp.isCmp] at hc <;> simp [evalBin, BinOp.isShift, cmpB]
 
 theorem mul_mem_pos {lo hi x c : Int} (h1 : lo ≤ x) (h2 : x ≤ hi) (hc : 0 < c) : lo * c ≤ x * c ∧ x * c ≤ hi * c :=
   ⟨Int.mul_le_mul_of_nonneg_right h1 (by omega), Int.mul_le_mul_of_nonneg_right h2 (by omega)⟩
@@ -443,7 +444,7 @@ theorem absBin_sound {P : Platform} {op : BinOp} {ta tb : Ty} {a b : AbsVal} {va
             rw [e] at h
             split
             · rename_i hz; subst hz
-              simp only [Int.mul_zero, Int.zero_mul] at h
+              simp only [Int.mul_zero] at h
               exact aarithNe_sound h (Int.le_refl _) (Int.le_refl _) (by simp)
             · split
               · rename_i hz hp
@@ -461,7 +462,7 @@ theorem absBin_sound {P : Platform} {op : BinOp} {ta tb : Ty} {a b : AbsVal} {va
             rw [e] at h
             split
             · rename_i hz; subst hz
-              simp only [Int.mul_zero, Int.zero_mul] at h
+              simp only [Int.zero_mul] at h
               exact aarithNe_sound h (Int.le_refl _) (Int.le_refl _) (by simp)
             · split
               · rename_i hz hp
@@ -487,7 +488,7 @@ theorem absBin_sound {P : Platform} {op : BinOp} {ta tb : Ty} {a b : AbsVal} {va
           apply ofOptBool_sound
           intro r hr
           have := acmp_sound hr ha' hb'
-          simp_all
+          simp_all [cmpB]
         all_goals first | exact hfall rfl | (simp [BinOp.isShift] at hs)
 
 theorem b2i_abool (b : Bool) : abool.mem (MiniC.b2i b) := by
@@ -541,6 +542,90 @@ theorem atruth_sound {v : AbsVal} {a : Int} {b : Bool} (h : atruth v = some b) (
       have := isConst_sound hc hm
       simp [this]
     · simp at h
+
+def landVal (va vb : AbsVal) : AbsVal :=
+  match atruth va, atruth vb with
+  | some false, _ => .const 0
+  | _, some false => .const 0
+  | some true, some true => .const 1
+  | _, _ => abool
+
+def lorVal (va vb : AbsVal) : AbsVal :=
+  match atruth va, atruth vb with
+  | some true, _ => .const 1
+  | _, some true => .const 1
+  | some false, some false => .const 0
+  | _, _ => abool
+
+theorem landVal_zero {va vb : AbsVal} (hx : va.mem 0) : (landVal va vb).mem 0 := by
+  unfold landVal
+  cases h1 : atruth va with
+  | none => cases h2 : atruth vb with
+    | none => exact b2i_abool false
+    | some b => cases b
+                · exact const_mem 0
+                · exact b2i_abool false
+  | some b =>
+    have := atruth_sound h1 hx
+    simp at this; subst this
+    exact const_mem 0
+
+theorem landVal_sound {va vb : AbsVal} {x y : Int} (hx : va.mem x) (hy : vb.mem y) (hx0 : x ≠ 0) :
+    (landVal va vb).mem (MiniC.b2i (decide (y ≠ 0))) := by
+  unfold landVal
+  cases h1 : atruth va with
+  | none => cases h2 : atruth vb with
+    | none => exact b2i_abool _
+    | some b =>
+      have := atruth_sound h2 hy; subst this
+      by_cases hy0 : y = 0
+      · simp [hy0, MiniC.b2i]; exact const_mem 0
+      · simp [hy0]; exact b2i_abool true
+  | some b =>
+    have := atruth_sound h1 hx
+    simp [hx0] at this; subst this
+    cases h2 : atruth vb with
+    | none => exact b2i_abool _
+    | some b =>
+      have := atruth_sound h2 hy; subst this
+      by_cases hy0 : y = 0
+      · simp [hy0, MiniC.b2i]; exact const_mem 0
+      · simp [hy0, MiniC.b2i]; exact const_mem 1
+
+theorem lorVal_one {va vb : AbsVal} {x : Int} (hx : va.mem x) (hx0 : x ≠ 0) : (lorVal va vb).mem 1 := by
+  unfold lorVal
+  cases h1 : atruth va with
+  | none => cases h2 : atruth vb with
+    | none => exact b2i_abool true
+    | some b => cases b
+                · exact b2i_abool true
+                · exact const_mem 1
+  | some b =>
+    have := atruth_sound h1 hx
+    simp [hx0] at this; subst this
+    exact const_mem 1
+
+theorem lorVal_sound {va vb : AbsVal} {y : Int} (hx : va.mem 0) (hy : vb.mem y) :
+    (lorVal va vb).mem (MiniC.b2i (decide (y ≠ 0))) := by
+  unfold lorVal
+  cases h1 : atruth va with
+  | none => cases h2 : atruth vb with
+    | none => exact b2i_abool _
+    | some b =>
+      have := atruth_sound h2 hy; subst this
+      by_cases hy0 : y = 0
+      · simp [hy0]; exact b2i_abool false
+      · simp [hy0, MiniC.b2i]; exact const_mem 1
+  | some b =>
+    have := atruth_sound h1 hx
+    simp at this; subst this
+    cases h2 : atruth vb with
+    | none => exact b2i_abool _
+    | some b =>
+      have := atruth_sound h2 hy; subst this
+      by_cases hy0 : y = 0
+      · simp [hy0, MiniC.b2i]; exact const_mem 0
+      · simp [hy0, MiniC.b2i]; exact const_mem 1
 
 /-! ## abstract states -/
 
@@ -790,14 +875,7 @@ theorem checkEG_sound (c : Ctx) (ref : Expr → Bool → AEnv → Option AEnv) (
           simp at h1; obtain ⟨rfl, rfl⟩ := h1
           refine ⟨fun h => A.1 (by simp at h; exact h.1), fun v hv => ?_⟩
           simp at hv; subst hv
-          have hta := A.2 0 rfl
-          split
-          · exact const_mem 0
-          · exact const_mem 0
-          · rename_i h3 _ _
-            have := atruth_sound h3 hta
-            simp at this
-          · exact b2i_abool false
+          exact landVal_zero (A.2 0 rfl)
       · simp [hx] at h2
         obtain ⟨st, hst, hσ'⟩ := href a true σ s x eva hn hσ hea (by simp [hx])
         simp only [hst] at h1
@@ -814,15 +892,8 @@ theorem checkEG_sound (c : Ctx) (ref : Expr → Bool → AEnv → Option AEnv) (
           simp at h2; obtain ⟨rfl, rfl⟩ := h2
           refine ⟨fun h => by simp at h; exact evOk_append (A.1 h.1) (B.1 h.2), fun v hv => ?_⟩
           simp at hv; subst hv
-          have hta := A.2 x rfl
-          have htb := B.2 y rfl
-          split
-          · rename_i h3; have := atruth_sound h3 hta; simp [hx] at this
-          · rename_i h3; have := atruth_sound h3 htb; simp at this; subst this; exact const_mem 0
-          · rename_i h3 h4
-            have := atruth_sound h4 htb; simp at this
-            simp [MiniC.b2i, this]; exact const_mem 1
-          · exact b2i_abool _
+          have hh := landVal_sound (A.2 x rfl) (B.2 y rfl) hx
+          unfold landVal at hh; simp only [ne_eq, decide_not] at hh; exact hh
   | lor a b iha ihb =>
     intro σ s ok va r evs hn hσ h1 h2
     simp only [checkEG] at h1; simp only [evalE] at h2
@@ -861,15 +932,8 @@ theorem checkEG_sound (c : Ctx) (ref : Expr → Bool → AEnv → Option AEnv) (
           simp at h2; obtain ⟨rfl, rfl⟩ := h2
           refine ⟨fun h => by simp at h; exact evOk_append (A.1 h.1) (B.1 h.2), fun v hv => ?_⟩
           simp at hv; subst hv
-          have hta := A.2 0 rfl
-          have htb := B.2 y rfl
-          split
-          · rename_i h3; have := atruth_sound h3 hta; simp at this
-          · rename_i h3; have := atruth_sound h3 htb; simp at this
-            simp [MiniC.b2i, this]; exact const_mem 1
-          · rename_i h3 h4
-            have := atruth_sound h4 htb; simp at this; subst this; exact const_mem 0
-          · exact b2i_abool _
+          have hh := lorVal_sound (A.2 0 rfl) (B.2 y rfl)
+          unfold lorVal at hh; simp only [ne_eq, decide_not] at hh; exact hh
       · simp [hx] at h2; obtain ⟨rfl, rfl⟩ := h2
         simp only [] at h1
         split at h1
@@ -881,14 +945,7 @@ theorem checkEG_sound (c : Ctx) (ref : Expr → Bool → AEnv → Option AEnv) (
           simp at h1; obtain ⟨rfl, rfl⟩ := h1
           refine ⟨fun h => A.1 (by simp at h; exact h.1), fun v hv => ?_⟩
           simp at hv; subst hv
-          have hta := A.2 x rfl
-          split
-          · exact const_mem 1
-          · exact const_mem 1
-          · rename_i h3 _ _
-            have := atruth_sound h3 hta
-            simp [hx] at this
-          · exact b2i_abool true
+          exact lorVal_one (A.2 x rfl) hx
   | cast t e ih =>
     intro σ s ok va r evs hn hσ h1 h2
     simp only [checkEG] at h1; simp only [evalE] at h2
@@ -905,7 +962,97 @@ theorem checkEG_sound (c : Ctx) (ref : Expr → Bool → AEnv → Option AEnv) (
       exact ⟨this.1, fun v hv => by simp at hv; subst hv; exact aconv_sound (this.2 a rfl)⟩
   | cond cnd a b ihc iha ihb =>
     intro σ s ok va r evs hn hσ h1 h2
-    sorry
+    simp only [checkEG] at h1; simp only [evalE] at h2
+    generalize hcc : checkEG c ref s cnd = pc at h1
+    obtain ⟨ok0, c1⟩ := pc
+    generalize hec : evalE c.P c.vars σ cnd = qc at h2
+    obtain ⟨rc, evc⟩ := qc
+    have C := ihc σ s ok0 c1 rc evc hn hσ hcc hec
+    simp only [] at h1
+    cases rc with
+    | none =>
+      simp at h2; obtain ⟨rfl, rfl⟩ := h2
+      refine ⟨fun h => C.1 ?_, fun v hv => by simp at hv⟩
+      split at h1
+      · generalize checkEG c ref _ a = pa at h1; obtain ⟨ok1, a1⟩ := pa
+        generalize checkEG c ref _ b = pb at h1; obtain ⟨ok2, b1⟩ := pb
+        simp at h1; have := h1.1; simp_all
+      · generalize checkEG c ref _ a = pa at h1; obtain ⟨ok1, a1⟩ := pa
+        simp at h1; have := h1.1; simp_all
+      · generalize checkEG c ref _ b = pb at h1; obtain ⟨ok2, b1⟩ := pb
+        simp at h1; have := h1.1; simp_all
+      · simp at h1; have := h1.1; simp_all
+    | some vc =>
+      simp only [] at h2
+      by_cases hvc : vc = 0
+      · -- the else operand is evaluated
+        simp [hvc] at h2
+        subst hvc
+        obtain ⟨sf, hsf, hσ'⟩ := href cnd false σ s 0 evc hn hσ hec (by simp)
+        generalize heb : evalE c.P c.vars σ b = qb at h2
+        obtain ⟨rb, evb⟩ := qb
+        rw [hsf] at h1
+        split at h1
+        · rename_i st sf' hst hsf'
+          simp at hsf'; subst hsf'
+          generalize hca : checkEG c ref st a = pa at h1; obtain ⟨ok1, a1⟩ := pa
+          generalize hcb : checkEG c ref sf b = pb at h1; obtain ⟨ok2, b1⟩ := pb
+          have B := ihb σ sf ok2 b1 rb evb hn hσ' hcb heb
+          simp at h1; obtain ⟨rfl, rfl⟩ := h1
+          cases rb with
+          | none => simp at h2; obtain ⟨rfl, rfl⟩ := h2
+                    exact ⟨fun h => by simp at h; exact evOk_append (C.1 h.1.1) (B.1 h.2), fun v hv => by simp at hv⟩
+          | some y =>
+            simp at h2; obtain ⟨rfl, rfl⟩ := h2
+            exact ⟨fun h => by simp at h; exact evOk_append (C.1 h.1.1) (B.1 h.2),
+                   fun v hv => by simp at hv; subst hv; exact join_sound_r (aconv_sound (B.2 y rfl))⟩
+        · rename_i hnf; simp at hnf
+        · rename_i sf' hnt hsf'
+          simp at hsf'; subst hsf'
+          generalize hcb : checkEG c ref sf b = pb at h1; obtain ⟨ok2, b1⟩ := pb
+          have B := ihb σ sf ok2 b1 rb evb hn hσ' hcb heb
+          simp at h1; obtain ⟨rfl, rfl⟩ := h1
+          cases rb with
+          | none => simp at h2; obtain ⟨rfl, rfl⟩ := h2
+                    exact ⟨fun h => by simp at h; exact evOk_append (C.1 h.1) (B.1 h.2), fun v hv => by simp at hv⟩
+          | some y =>
+            simp at h2; obtain ⟨rfl, rfl⟩ := h2
+            exact ⟨fun h => by simp at h; exact evOk_append (C.1 h.1) (B.1 h.2),
+                   fun v hv => by simp at hv; subst hv; exact aconv_sound (B.2 y rfl)⟩
+        · rename_i hnf; simp at hnf
+      · simp [hvc] at h2
+        obtain ⟨st, hst, hσ'⟩ := href cnd true σ s vc evc hn hσ hec (by simp [hvc])
+        generalize hea : evalE c.P c.vars σ a = qa at h2
+        obtain ⟨ra, eva⟩ := qa
+        rw [hst] at h1
+        split at h1
+        · rename_i st' sf hst' hsf
+          simp at hst'; subst hst'
+          generalize hca : checkEG c ref st a = pa at h1; obtain ⟨ok1, a1⟩ := pa
+          generalize hcb : checkEG c ref sf b = pb at h1; obtain ⟨ok2, b1⟩ := pb
+          have A := iha σ st ok1 a1 ra eva hn hσ' hca hea
+          simp at h1; obtain ⟨rfl, rfl⟩ := h1
+          cases ra with
+          | none => simp at h2; obtain ⟨rfl, rfl⟩ := h2
+                    exact ⟨fun h => by simp at h; exact evOk_append (C.1 h.1.1) (A.1 h.1.2), fun v hv => by simp at hv⟩
+          | some x =>
+            simp at h2; obtain ⟨rfl, rfl⟩ := h2
+            exact ⟨fun h => by simp at h; exact evOk_append (C.1 h.1.1) (A.1 h.1.2),
+                   fun v hv => by simp at hv; subst hv; exact join_sound_l (aconv_sound (A.2 x rfl))⟩
+        · rename_i st' hst' hnf
+          simp at hst'; subst hst'
+          generalize hca : checkEG c ref st a = pa at h1; obtain ⟨ok1, a1⟩ := pa
+          have A := iha σ st ok1 a1 ra eva hn hσ' hca hea
+          simp at h1; obtain ⟨rfl, rfl⟩ := h1
+          cases ra with
+          | none => simp at h2; obtain ⟨rfl, rfl⟩ := h2
+                    exact ⟨fun h => by simp at h; exact evOk_append (C.1 h.1) (A.1 h.2), fun v hv => by simp at hv⟩
+          | some x =>
+            simp at h2; obtain ⟨rfl, rfl⟩ := h2
+            exact ⟨fun h => by simp at h; exact evOk_append (C.1 h.1) (A.1 h.2),
+                   fun v hv => by simp at hv; subst hv; exact aconv_sound (A.2 x rfl)⟩
+        · rename_i heq _; simp at heq
+        · rename_i heq _; simp at heq
   | tag id e ih =>
     intro σ s ok va r evs hn hσ h1 h2
     simp only [checkEG] at h1; simp only [evalE] at h2
@@ -921,5 +1068,709 @@ theorem checkEG_sound (c : Ctx) (ref : Expr → Bool → AEnv → Option AEnv) (
       simp at h2; obtain ⟨rfl, rfl⟩ := h2
       exact ⟨fun h => by simp at h; exact evOk_append (this.1 h.1) (factOk_sound h.2 (this.2 a rfl)),
              fun v hv => by simp at hv; subst hv; exact this.2 a rfl⟩
+
+/-! ## condition refinement -/
+
+theorem absE0_sound (c : Ctx) {σ : Env} {s : AEnv} {e : Expr} {v : Int} {evs : List Event}
+    (hn : σ.length = c.vars.length) (hσ : EnvIn σ s) (h : evalE c.P c.vars σ e = (some v, evs)) : (absE0 c s e).mem v := by
+  unfold absE0
+  generalize hc : checkEG c noRef s e = p
+  obtain ⟨ok, va⟩ := p
+  exact (checkEG_sound c noRef (noRef_sound c) e σ s ok va (some v) evs hn hσ hc h).2 v rfl
+
+theorem evalE_tag {P : Platform} {vars : List Ty} {σ : Env} {id : Nat} {e : Expr} {v : Int} {evs : List Event}
+    (h : evalE P vars σ (.tag id e) = (some v, evs)) : ∃ evs', evalE P vars σ e = (some v, evs') := by
+  simp only [evalE] at h
+  generalize evalE P vars σ e = q at h
+  obtain ⟨r, ev⟩ := q
+  cases r with
+  | none => simp at h
+  | some a => simp at h; exact ⟨ev, by rw [h.1]⟩
+
+theorem stripTags_var {P : Platform} {vars : List Ty} {σ : Env} (e : Expr) {x : Nat} {v : Int} {evs : List Event}
+    (hs : stripTags e = .var x) (h : evalE P vars σ e = (some v, evs)) : v = σ.getD x 0 := by
+  induction e generalizing evs with
+  | tag id e ih =>
+    simp only [stripTags] at hs
+    obtain ⟨evs', h'⟩ := evalE_tag h
+    exact ih hs h'
+  | var y => simp [stripTags] at hs; subst hs; simp [evalE] at h; exact h.1.symm
+  | _ => simp [stripTags] at hs
+
+theorem envIn_set_same {σ : Env} {s : AEnv} (h : EnvIn σ s) (x : Nat) {v : AbsVal} (hv : v.mem (σ.getD x 0)) :
+    EnvIn σ (s.set x v) := by
+  induction σ generalizing s x with
+  | nil => cases s with
+    | nil => simp [EnvIn]
+    | cons w s => simp [EnvIn] at h
+  | cons b σ ih => cases s with
+    | nil => simp [EnvIn] at h
+    | cons w s =>
+      simp [EnvIn] at h
+      cases x with
+      | zero => simp at hv; simp [EnvIn]; exact ⟨hv, h.2⟩
+      | succ x => simp at hv; simp [EnvIn]; exact ⟨h.1, ih h.2 x hv⟩
+
+theorem setIfVar_sound {P : Platform} {vars : List Ty} {σ : Env} {s : AEnv} {e : Expr} {f : AbsVal → AbsVal} {v : Int} {evs : List Event}
+    (hσ : EnvIn σ s) (he : evalE P vars σ e = (some v, evs)) (hf : ∀ w : AbsVal, w.mem v → (f w).mem v) : EnvIn σ (setIfVar s e f) := by
+  unfold setIfVar
+  split
+  · rename_i x hx
+    split
+    · have e1 := stripTags_var e hx he
+      apply envIn_set_same hσ
+      rw [← e1]; apply hf; rw [e1]; exact alook_sound hσ x
+    · exact hσ
+  · exact hσ
+
+/-- mathematical meaning of a comparison operator -/
+def cmpHolds (op : BinOp) (x y : Int) : Prop :=
+  match op with
+  | .lt => x < y | .le => x ≤ y | .gt => x > y | .ge => x ≥ y | .eq => x = y | .ne => x ≠ y | _ => True
+
+theorem refineBy_sound {op : BinOp} {vx vb : AbsVal} {x y : Int} (hx : vx.mem x) (hy : vb.mem y) (h : cmpHolds op x y) :
+    (refineBy op vx vb).mem x := by
+  have hy' := hy
+  unfold AbsVal.mem at hy'
+  unfold refineBy
+  cases op <;> simp only [cmpHolds] at h ⊢
+  case lt => exact meetHi_sound hx (by omega)
+  case le => exact meetHi_sound hx (by omega)
+  case gt => exact meetLo_sound hx (by omega)
+  case ge => exact meetLo_sound hx (by omega)
+  case eq => exact meetHi_sound (meetLo_sound hx (by omega)) (by omega)
+  case ne =>
+    split
+    · rename_i c hc
+      have := isConst_sound hc hy
+      exact remove_sound hx (by omega)
+    · exact hx
+  all_goals exact hx
+
+theorem cmpHolds_swap {op : BinOp} {x y : Int} (h : cmpHolds op x y) : cmpHolds (swapCmp op) y x := by
+  cases op <;> simp only [cmpHolds, swapCmp] at h ⊢ <;> omega
+
+theorem acmp_false_not {op : BinOp} {a b : AbsVal} {x y : Int} (hc : op.isCmp = true) (h : acmp op a b = some false)
+    (ha : a.mem x) (hb : b.mem y) : ¬ cmpHolds op x y := by
+  have := acmp_sound h ha hb
+  cases op <;> simp [BinOp.isCmp] at hc <;> simp only [cmpHolds] <;> simp_all <;> omega
+
+theorem refineCmp_sound (c : Ctx) {op : BinOp} {a b : Expr} {σ : Env} {s : AEnv} {va vb : Int} {eva evb : List Event}
+    (hc : op.isCmp = true) (hn : σ.length = c.vars.length) (hσ : EnvIn σ s)
+    (hea : evalE c.P c.vars σ a = (some va, eva)) (heb : evalE c.P c.vars σ b = (some vb, evb))
+    (h : cmpHolds op (conv c.P (uac c.P (tyOf c.P c.vars a) (tyOf c.P c.vars b)) va)
+                     (conv c.P (uac c.P (tyOf c.P c.vars a) (tyOf c.P c.vars b)) vb)) :
+    ∃ s', refineCmp c op a b s = some s' ∧ EnvIn σ s' := by
+  unfold refineCmp
+  simp only []
+  have ma := absE0_sound c hn hσ hea
+  have mb := absE0_sound c hn hσ heb
+  split
+  · rename_i hf
+    simp [fits] at hf
+    have ia : inTy c.P (uac c.P (tyOf c.P c.vars a) (tyOf c.P c.vars b)) va := by
+      unfold inTy; unfold AbsVal.mem at ma; omega
+    have ib : inTy c.P (uac c.P (tyOf c.P c.vars a) (tyOf c.P c.vars b)) vb := by
+      unfold inTy; unfold AbsVal.mem at mb; omega
+    rw [conv_id ia, conv_id ib] at h
+    split
+    · rename_i hfalse
+      exact absurd h (acmp_false_not hc hfalse ma mb)
+    · refine ⟨_, rfl, ?_⟩
+      apply setIfVar_sound (setIfVar_sound hσ hea (fun w hw => refineBy_sound hw mb h)) heb
+      intro w hw
+      exact refineBy_sound hw ma (cmpHolds_swap h)
+  · exact ⟨s, rfl, hσ⟩
+
+theorem generic_assume (c : Ctx) {e : Expr} {t : Bool} {σ : Env} {s : AEnv} {v : Int} {evs : List Event}
+    (hn : σ.length = c.vars.length) (hσ : EnvIn σ s) (he : evalE c.P c.vars σ e = (some v, evs)) (ht : decide (v ≠ 0) = t) :
+    ∃ s', (match atruth (absE0 c s e), t with
+           | some true, false => none
+           | some false, true => none
+           | _, _ => some s) = some s' ∧ EnvIn σ s' := by
+  have m := absE0_sound c hn hσ he
+  cases h1 : atruth (absE0 c s e) with
+  | none => exact ⟨s, by simp, hσ⟩
+  | some b =>
+    have := atruth_sound h1 m
+    rw [ht] at this; subst this
+    cases b <;> exact ⟨s, by simp, hσ⟩
+
+theorem evalE_land {P : Platform} {vars : List Ty} {σ : Env} {a b : Expr} {v : Int} {evs : List Event}
+    (h : evalE P vars σ (.land a b) = (some v, evs)) :
+    ∃ va eva, evalE P vars σ a = (some va, eva) ∧
+      ((va = 0 ∧ v = 0) ∨ (va ≠ 0 ∧ ∃ vb evb, evalE P vars σ b = (some vb, evb) ∧ v = MiniC.b2i (decide (vb ≠ 0)))) := by
+  simp only [evalE] at h
+  generalize hea : evalE P vars σ a = qa at h
+  obtain ⟨ra, eva⟩ := qa
+  cases ra with
+  | none => simp at h
+  | some va =>
+    refine ⟨va, eva, rfl, ?_⟩
+    simp only [] at h
+    by_cases h0 : va = 0
+    · simp [h0] at h; exact Or.inl ⟨h0, h.1.symm⟩
+    · simp [h0] at h
+      generalize heb : evalE P vars σ b = qb at h
+      obtain ⟨rb, evb⟩ := qb
+      cases rb with
+      | none => simp at h
+      | some vb => simp at h; exact Or.inr ⟨h0, vb, evb, rfl, by rw [← h.1]; simp⟩
+
+theorem evalE_lor {P : Platform} {vars : List Ty} {σ : Env} {a b : Expr} {v : Int} {evs : List Event}
+    (h : evalE P vars σ (.lor a b) = (some v, evs)) :
+    ∃ va eva, evalE P vars σ a = (some va, eva) ∧
+      ((va ≠ 0 ∧ v = 1) ∨ (va = 0 ∧ ∃ vb evb, evalE P vars σ b = (some vb, evb) ∧ v = MiniC.b2i (decide (vb ≠ 0)))) := by
+  simp only [evalE] at h
+  generalize hea : evalE P vars σ a = qa at h
+  obtain ⟨ra, eva⟩ := qa
+  cases ra with
+  | none => simp at h
+  | some va =>
+    refine ⟨va, eva, rfl, ?_⟩
+    simp only [] at h
+    by_cases h0 : va = 0
+    · simp [h0] at h
+      generalize heb : evalE P vars σ b = qb at h
+      obtain ⟨rb, evb⟩ := qb
+      cases rb with
+      | none => simp at h
+      | some vb => simp at h; exact Or.inr ⟨h0, vb, evb, rfl, by rw [← h.1]; simp⟩
+    · simp [h0] at h; exact Or.inl ⟨h0, h.1.symm⟩
+
+theorem b2i_ne_zero (b : Bool) : (MiniC.b2i b ≠ 0) ↔ b = true := by
+  cases b <;> simp [MiniC.b2i]
+
+theorem truth_b2i {b t : Bool} (h : decide (MiniC.b2i b ≠ 0) = t) : b = t := by
+  cases b <;> cases t <;> simp [MiniC.b2i] at h ⊢
+
+theorem cmpB_true {op : BinOp} {x y : Int} (hc : op.isCmp = true) (h : cmpB op x y = true) : cmpHolds op x y := by
+  cases op <;> simp [BinOp.isCmp] at hc <;> simp [cmpB] at h <;> simp [cmpHolds] <;> omega
+
+theorem cmpB_false {op : BinOp} {x y : Int} (hc : op.isCmp = true) (h : cmpB op x y = false) : cmpHolds (negCmp op) x y := by
+  cases op <;> simp [BinOp.isCmp] at hc <;> simp [cmpB] at h <;> simp [cmpHolds, negCmp] <;> omega
+
+theorem assume_sound (c : Ctx) : RefSound c (assume c) := by
+  intro e
+  induction e with
+  | tag id e ih =>
+    intro t σ s v evs hn hσ he ht
+    obtain ⟨evs', he'⟩ := evalE_tag he
+    simp only [assume]
+    exact ih t σ s v evs' hn hσ he' ht
+  | un op e ih =>
+    intro t σ s v evs hn hσ he ht
+    cases op with
+    | lnot =>
+      simp only [assume]
+      simp only [evalE] at he
+      generalize hee : evalE c.P c.vars σ e = q at he
+      obtain ⟨r, ev⟩ := q
+      cases r with
+      | none => simp at he
+      | some a =>
+        simp [evalUn] at he
+        apply ih (!t) σ s a ev hn hσ hee
+        rw [← ht, ← he.1]
+        by_cases ha : a = 0 <;> simp [ha, MiniC.b2i]
+    | neg => simp only [assume]; exact generic_assume c hn hσ he ht
+    | compl => simp only [assume]; exact generic_assume c hn hσ he ht
+  | land a b iha ihb =>
+    intro t σ s v evs hn hσ he ht
+    obtain ⟨va, eva, hea, hcase⟩ := evalE_land he
+    cases t with
+    | true =>
+      simp only [assume]
+      rcases hcase with ⟨_, hv⟩ | ⟨ha0, vb, evb, heb, hv⟩
+      · subst hv; simp at ht
+      · obtain ⟨s1, hs1, hσ1⟩ := iha true σ s va eva hn hσ hea (by simp [ha0])
+        rw [hs1]
+        apply ihb true σ s1 vb evb hn hσ1 heb
+        rw [hv] at ht
+        exact truth_b2i ht
+    | false =>
+      simp only [assume]
+      rcases hcase with ⟨ha0, _⟩ | ⟨ha0, vb, evb, heb, hv⟩
+      · obtain ⟨s1, hs1, hσ1⟩ := iha false σ s va eva hn hσ hea (by simp [ha0])
+        have : OEnvIn σ (assume c a false s) := by rw [hs1]; exact hσ1
+        have := ojoin_sound_l (b := (match assume c a true s with | none => none | some s1 => assume c b false s1)) hn this
+        generalize ojoin c.vars.length _ _ = o at this
+        cases o with
+        | none => simp [OEnvIn] at this
+        | some s' => exact ⟨s', rfl, this⟩
+      · obtain ⟨s1, hs1, hσ1⟩ := iha true σ s va eva hn hσ hea (by simp [ha0])
+        have hvb : decide (vb ≠ 0) = false := by
+          rw [hv] at ht; exact truth_b2i ht
+        obtain ⟨s2, hs2, hσ2⟩ := ihb false σ s1 vb evb hn hσ1 heb hvb
+        have : OEnvIn σ (match assume c a true s with | none => none | some s1 => assume c b false s1) := by
+          rw [hs1]; simp only []; rw [hs2]; exact hσ2
+        have := ojoin_sound_r (a := assume c a false s) hn this
+        generalize ojoin c.vars.length _ _ = o at this
+        cases o with
+        | none => simp [OEnvIn] at this
+        | some s' => exact ⟨s', rfl, this⟩
+  | lor a b iha ihb =>
+    intro t σ s v evs hn hσ he ht
+    obtain ⟨va, eva, hea, hcase⟩ := evalE_lor he
+    cases t with
+    | false =>
+      simp only [assume]
+      rcases hcase with ⟨_, hv⟩ | ⟨ha0, vb, evb, heb, hv⟩
+      · subst hv; simp at ht
+      · obtain ⟨s1, hs1, hσ1⟩ := iha false σ s va eva hn hσ hea (by simp [ha0])
+        rw [hs1]
+        apply ihb false σ s1 vb evb hn hσ1 heb
+        rw [hv] at ht
+        exact truth_b2i ht
+    | true =>
+      simp only [assume]
+      rcases hcase with ⟨ha0, _⟩ | ⟨ha0, vb, evb, heb, hv⟩
+      · obtain ⟨s1, hs1, hσ1⟩ := iha true σ s va eva hn hσ hea (by simp [ha0])
+        have : OEnvIn σ (assume c a true s) := by rw [hs1]; exact hσ1
+        have := ojoin_sound_l (b := (match assume c a false s with | none => none | some s1 => assume c b true s1)) hn this
+        generalize ojoin c.vars.length _ _ = o at this
+        cases o with
+        | none => simp [OEnvIn] at this
+        | some s' => exact ⟨s', rfl, this⟩
+      · obtain ⟨s1, hs1, hσ1⟩ := iha false σ s va eva hn hσ hea (by simp [ha0])
+        have hvb : decide (vb ≠ 0) = true := by
+          rw [hv] at ht; exact truth_b2i ht
+        obtain ⟨s2, hs2, hσ2⟩ := ihb true σ s1 vb evb hn hσ1 heb hvb
+        have : OEnvIn σ (match assume c a false s with | none => none | some s1 => assume c b true s1) := by
+          rw [hs1]; simp only []; rw [hs2]; exact hσ2
+        have := ojoin_sound_r (a := assume c a true s) hn this
+        generalize ojoin c.vars.length _ _ = o at this
+        cases o with
+        | none => simp [OEnvIn] at this
+        | some s' => exact ⟨s', rfl, this⟩
+  | bin op a b _ _ =>
+    intro t σ s v evs hn hσ he ht
+    simp only [assume]
+    split
+    · rename_i hc
+      have he' := he
+      simp only [evalE] at he'
+      generalize hea : evalE c.P c.vars σ a = qa at he'
+      obtain ⟨ra, eva⟩ := qa
+      cases ra with
+      | none => simp at he'
+      | some va =>
+        simp only [] at he'
+        generalize heb : evalE c.P c.vars σ b = qb at he'
+        obtain ⟨rb, evb⟩ := qb
+        cases rb with
+        | none => simp at he'
+        | some vb =>
+          simp only [] at he'
+          rw [evalBin_cmp hc] at he'
+          simp at he'
+          obtain ⟨hv, _⟩ := he'
+          subst hv
+          have hb := truth_b2i ht
+          cases t with
+          | true => simp only [if_true]; exact refineCmp_sound c hc hn hσ hea heb (cmpB_true hc hb)
+          | false =>
+            simp only [Bool.false_eq_true, if_false]
+            have hcn : (negCmp op).isCmp = true := by cases op <;> simp_all [negCmp, BinOp.isCmp]
+            exact refineCmp_sound c hcn hn hσ hea heb (cmpB_false hc hb)
+    · exact generic_assume c hn hσ he ht
+  | var x =>
+    intro t σ s v evs hn hσ he ht
+    simp only [assume]
+    simp only [evalE, Prod.mk.injEq, Option.some.injEq] at he
+    obtain ⟨hv, _⟩ := he
+    subst hv
+    have m := alook_sound hσ x
+    have key : x < s.length → EnvIn σ (s.set x (if t = true then (alook s x).remove 0 else ((alook s x).meetLo 0).meetHi 0)) := by
+      intro _
+      apply envIn_set_same hσ
+      cases t with
+      | true => simp at ht; simp; exact remove_sound m ht
+      | false => simp at ht; simp; exact meetHi_sound (meetLo_sound m (by omega)) (by omega)
+    cases h1 : atruth (alook s x) with
+    | none =>
+      simp only []
+      split
+      · rename_i hlt; exact ⟨_, rfl, key hlt⟩
+      · exact ⟨s, rfl, hσ⟩
+    | some b =>
+      have := atruth_sound h1 m
+      rw [ht] at this; subst this
+      cases b <;> simp only []
+      · split
+        · rename_i hlt; exact ⟨_, rfl, key hlt⟩
+        · exact ⟨s, rfl, hσ⟩
+      · split
+        · rename_i hlt; exact ⟨_, rfl, key hlt⟩
+        · exact ⟨s, rfl, hσ⟩
+  | lit v t0 =>
+    intro t σ s v evs hn hσ he ht
+    simp only [assume]; exact generic_assume c hn hσ he ht
+  | cast t0 e _ =>
+    intro t σ s v evs hn hσ he ht
+    simp only [assume]; exact generic_assume c hn hσ he ht
+  | cond cnd a b _ _ _ =>
+    intro t σ s v evs hn hσ he ht
+    simp only [assume]; exact generic_assume c hn hσ he ht
+
+/-! ## statements -/
+
+theorem checkE_sound (c : Ctx) {σ : Env} {s : AEnv} {e : Expr} {ok : Bool} {va : AbsVal} {r : Option Int} {evs : List Event}
+    (hn : σ.length = c.vars.length) (hσ : EnvIn σ s) (h1 : checkE c s e = (ok, va)) (h2 : evalE c.P c.vars σ e = (r, evs)) :
+    (ok = true → EvOk c.φ evs) ∧ (∀ v, r = some v → va.mem v) :=
+  checkEG_sound c (assume c) (assume_sound c) e σ s ok va r evs hn hσ h1 h2
+
+/-- the concrete outcome is described by the abstract one; environments keep their length -/
+def OutIn (n : Nat) (o : Out) (a : AOut) : Prop :=
+  match o with
+  | .normal e => OEnvIn e a.normal ∧ e.length = n
+  | .brk e => OEnvIn e a.brk ∧ e.length = n
+  | .cont e => OEnvIn e a.cont ∧ e.length = n
+  | _ => True
+
+def StmtSound (c : Ctx) (k : Nat) : Prop :=
+  ∀ (st : Stmt) (σ : Env) (s : AEnv) (out : AOut) (o : Out) (evs : List Event),
+    σ.length = c.vars.length → EnvIn σ s → checkS c st s = (true, out) → execS c.P c.vars k σ st = (o, evs) →
+    EvOk c.φ evs ∧ OutIn c.vars.length o out
+
+theorem setVar_length (σ : Env) (x : Nat) (v : Int) : (setVar σ x v).length = σ.length := by
+  simp [setVar]
+
+theorem loop_sound (c : Ctx) (K : Nat) (cnd : Expr) (body : Stmt) (inv : AEnv) (va : AbsVal) (ob : AOut)
+    (hcnd : checkE c inv cnd = (true, va))
+    (hbody : ∀ st', assume c cnd true inv = some st' →
+      ∃ ob', checkS c body st' = (true, ob') ∧ oleq ob'.normal inv = true ∧ oleq ob'.cont inv = true ∧ ob'.brk = ob.brk)
+    (ih : ∀ k, k < K → StmtSound c k) :
+    ∀ k, k ≤ K → ∀ (σ : Env) (o : Out) (evs : List Event), σ.length = c.vars.length → EnvIn σ inv →
+      execS c.P c.vars k σ (.while cnd body) = (o, evs) →
+      EvOk c.φ evs ∧ OutIn c.vars.length o ⟨ojoin c.vars.length (assume c cnd false inv) ob.brk, none, none⟩ := by
+  intro k
+  induction k with
+  | zero =>
+    intro _ σ o evs _ _ h
+    simp [execS] at h
+    obtain ⟨rfl, rfl⟩ := h
+    exact ⟨evOk_nil _, by simp [OutIn]⟩
+  | succ k ihk =>
+    intro hk σ o evs hn hσ h
+    simp only [execS] at h
+    generalize hec : evalE c.P c.vars σ cnd = q at h
+    obtain ⟨rc, evc⟩ := q
+    have C := checkE_sound c hn hσ hcnd hec
+    cases rc with
+    | none =>
+      simp at h; obtain ⟨rfl, rfl⟩ := h
+      exact ⟨C.1 rfl, by simp [OutIn]⟩
+    | some vc =>
+      simp only [] at h
+      by_cases hvc : vc = 0
+      · simp [hvc] at h; obtain ⟨rfl, rfl⟩ := h
+        subst hvc
+        obtain ⟨sf, hsf, hσf⟩ := assume_sound c cnd false σ inv 0 evc hn hσ hec (by simp)
+        refine ⟨C.1 rfl, ?_⟩
+        simp only [OutIn]
+        exact ⟨ojoin_sound_l hn (by rw [hsf]; exact hσf), hn⟩
+      · simp [hvc] at h
+        obtain ⟨st', hst, hσt⟩ := assume_sound c cnd true σ inv vc evc hn hσ hec (by simp [hvc])
+        obtain ⟨ob', hcb, hl1, hl2, hbrk⟩ := hbody st' hst
+        generalize heb : execS c.P c.vars k σ body = qb at h
+        obtain ⟨o1, ev1⟩ := qb
+        have B := ih k (by omega) body σ st' ob' o1 ev1 hn hσt hcb heb
+        cases o1 with
+        | normal env' =>
+          simp only [] at h
+          generalize hew : execS c.P c.vars k env' (.while cnd body) = qw at h
+          obtain ⟨o2, ev2⟩ := qw
+          simp at h; obtain ⟨rfl, rfl⟩ := h
+          have hin := B.2; simp only [OutIn] at hin
+          have W := ihk (by omega) env' o2 ev2 hin.2 (oleq_sound hl1 hin.1) hew
+          exact ⟨evOk_append (C.1 rfl) (evOk_append B.1 W.1), W.2⟩
+        | cont env' =>
+          simp only [] at h
+          generalize hew : execS c.P c.vars k env' (.while cnd body) = qw at h
+          obtain ⟨o2, ev2⟩ := qw
+          simp at h; obtain ⟨rfl, rfl⟩ := h
+          have hin := B.2; simp only [OutIn] at hin
+          have W := ihk (by omega) env' o2 ev2 hin.2 (oleq_sound hl2 hin.1) hew
+          exact ⟨evOk_append (C.1 rfl) (evOk_append B.1 W.1), W.2⟩
+        | brk env' =>
+          simp at h; obtain ⟨rfl, rfl⟩ := h
+          have hin := B.2; simp only [OutIn] at hin
+          refine ⟨evOk_append (C.1 rfl) B.1, ?_⟩
+          simp only [OutIn]
+          exact ⟨ojoin_sound_r hin.2 (by rw [← hbrk]; exact hin.1), hin.2⟩
+        | ret => simp at h; obtain ⟨rfl, rfl⟩ := h; exact ⟨evOk_append (C.1 rfl) B.1, by simp [OutIn]⟩
+        | ub => simp at h; obtain ⟨rfl, rfl⟩ := h; exact ⟨evOk_append (C.1 rfl) B.1, by simp [OutIn]⟩
+        | timeout => simp at h; obtain ⟨rfl, rfl⟩ := h; exact ⟨evOk_append (C.1 rfl) B.1, by simp [OutIn]⟩
+
+theorem ojoin_none_r (n : Nat) (a : Option AEnv) : ojoin n a none = a := by
+  cases a <;> rfl
+
+theorem assign_out {c : Ctx} {σ : Env} {s : AEnv} {x : Nat} {va : AbsVal} {v : Int} (hn : σ.length = c.vars.length) (hσ : EnvIn σ s)
+    (hv : va.mem v) :
+    OutIn c.vars.length (.normal (setVar σ x v)) ⟨if va.isEmpty then none else some (s.set x va), none, none⟩ := by
+  simp only [OutIn]
+  split
+  · rename_i he; exact absurd hv (fun h => isEmpty_sound he h)
+  · exact ⟨set_sound hσ x hv, by rw [setVar_length]; exact hn⟩
+
+theorem stmt_sound (c : Ctx) : ∀ k, StmtSound c k := by
+  intro k
+  induction k using Nat.strongRecOn with
+  | _ k ih =>
+  cases k with
+  | zero =>
+    intro st σ s out o evs _ _ _ h
+    simp [execS] at h; obtain ⟨rfl, rfl⟩ := h
+    exact ⟨evOk_nil _, by simp [OutIn]⟩
+  | succ k =>
+    intro st σ s out o evs hn hσ hc h
+    have IH := ih k (by omega)
+    cases st with
+    | skip =>
+      simp [checkS] at hc; simp [execS] at h
+      obtain ⟨rfl, rfl⟩ := h; subst hc
+      exact ⟨evOk_nil _, by simp only [OutIn]; exact ⟨hσ, hn⟩⟩
+    | assign id x e =>
+      simp only [checkS] at hc; simp only [execS] at h
+      generalize hce : checkE c s e = p at hc
+      obtain ⟨ok, va⟩ := p
+      generalize hee : evalE c.P c.vars σ e = q at h
+      obtain ⟨r, ev⟩ := q
+      have E := checkE_sound c hn hσ hce hee
+      simp at hc
+      obtain ⟨⟨hok, hf⟩, rfl⟩ := hc
+      cases r with
+      | none => simp at h; obtain ⟨rfl, rfl⟩ := h; exact ⟨E.1 hok, by simp [OutIn]⟩
+      | some v =>
+        simp at h; obtain ⟨rfl, rfl⟩ := h
+        have hv := aconv_sound (P := c.P) (t := varTy c.vars x) (E.2 v rfl)
+        exact ⟨evOk_append (E.1 hok) (factOk_sound hf hv), assign_out hn hσ hv⟩
+    | compound id op x e =>
+      simp only [checkS] at hc; simp only [execS] at h
+      generalize hce : checkE c s e = p at hc
+      obtain ⟨ok, va⟩ := p
+      generalize hee : evalE c.P c.vars σ e = q at h
+      obtain ⟨r, ev⟩ := q
+      have E := checkE_sound c hn hσ hce hee
+      simp at hc
+      obtain ⟨⟨hok, hf⟩, rfl⟩ := hc
+      cases r with
+      | none => simp at h; obtain ⟨rfl, rfl⟩ := h; exact ⟨E.1 hok, by simp [OutIn]⟩
+      | some v =>
+        simp only [] at h
+        generalize heb : evalBin c.P op (varTy c.vars x) (tyOf c.P c.vars e) (σ.getD x 0) v = rb at h
+        cases rb with
+        | none => simp at h; obtain ⟨rfl, rfl⟩ := h; exact ⟨E.1 hok, by simp [OutIn]⟩
+        | some r =>
+          simp at h; obtain ⟨rfl, rfl⟩ := h
+          have hr := absBin_sound (alook_sound hσ x) (E.2 v rfl) heb
+          have hv := aconv_sound (P := c.P) (t := varTy c.vars x) hr
+          exact ⟨evOk_append (E.1 hok) (factOk_sound hf hv), assign_out hn hσ hv⟩
+    | incdec id inc pre x =>
+      simp only [checkS] at hc; simp only [execS] at h
+      simp at hc
+      obtain ⟨hf, rfl⟩ := hc
+      generalize heb : evalBin c.P (if inc = true then BinOp.add else BinOp.sub) (varTy c.vars x) tInt (σ.getD x 0) 1 = rb at h
+      cases rb with
+      | none => simp at h; obtain ⟨rfl, rfl⟩ := h; exact ⟨evOk_nil _, by simp [OutIn]⟩
+      | some r =>
+        simp at h; obtain ⟨rfl, rfl⟩ := h
+        have hold := alook_sound hσ x
+        have hr := absBin_sound hold (const_mem 1) heb
+        have hv := aconv_sound (P := c.P) (t := varTy c.vars x) hr
+        refine ⟨?_, assign_out hn hσ hv⟩
+        cases pre with
+        | true => simp at hf ⊢; exact factOk_sound hf hv
+        | false => simp at hf ⊢; exact factOk_sound hf hold
+    | seq a b =>
+      simp only [checkS] at hc; simp only [execS] at h
+      generalize hca : checkS c a s = pa at hc
+      obtain ⟨ok1, o1⟩ := pa
+      generalize hea : execS c.P c.vars k σ a = qa at h
+      obtain ⟨r1, ev1⟩ := qa
+      simp only [] at hc
+      cases hn1 : o1.normal with
+      | none =>
+        rw [hn1] at hc
+        simp at hc; obtain ⟨rfl, rfl⟩ := hc
+        have A := IH a σ s o1 r1 ev1 hn hσ hca hea
+        cases r1 with
+        | normal env' => have := A.2; simp only [OutIn] at this; rw [hn1] at this; simp [OEnvIn] at this
+        | brk env' => simp at h; obtain ⟨rfl, rfl⟩ := h; exact A
+        | cont env' => simp at h; obtain ⟨rfl, rfl⟩ := h; exact A
+        | ret => simp at h; obtain ⟨rfl, rfl⟩ := h; exact A
+        | ub => simp at h; obtain ⟨rfl, rfl⟩ := h; exact A
+        | timeout => simp at h; obtain ⟨rfl, rfl⟩ := h; exact A
+      | some s1 =>
+        rw [hn1] at hc
+        simp only [] at hc
+        generalize hcb : checkS c b s1 = pb at hc
+        obtain ⟨ok2, o2⟩ := pb
+        simp at hc
+        obtain ⟨⟨rfl, rfl⟩, rfl⟩ := hc
+        have A := IH a σ s o1 r1 ev1 hn hσ hca hea
+        cases r1 with
+        | normal env' =>
+          simp only [] at h
+          generalize heb : execS c.P c.vars k env' b = qb at h
+          obtain ⟨r2, ev2⟩ := qb
+          simp at h; obtain ⟨rfl, rfl⟩ := h
+          have hin := A.2; simp only [OutIn] at hin; rw [hn1] at hin
+          have B := IH b env' s1 o2 r2 ev2 hin.2 hin.1 hcb heb
+          refine ⟨evOk_append A.1 B.1, ?_⟩
+          have hB := B.2
+          cases r2 with
+          | normal e2 => simpa [OutIn] using hB
+          | brk e2 => simp only [OutIn] at hB ⊢; exact ⟨ojoin_sound_r hB.2 hB.1, hB.2⟩
+          | cont e2 => simp only [OutIn] at hB ⊢; exact ⟨ojoin_sound_r hB.2 hB.1, hB.2⟩
+          | ret => simp [OutIn]
+          | ub => simp [OutIn]
+          | timeout => simp [OutIn]
+        | brk env' =>
+          simp at h; obtain ⟨rfl, rfl⟩ := h
+          have hA := A.2; simp only [OutIn] at hA ⊢
+          exact ⟨A.1, ojoin_sound_l hA.2 hA.1, hA.2⟩
+        | cont env' =>
+          simp at h; obtain ⟨rfl, rfl⟩ := h
+          have hA := A.2; simp only [OutIn] at hA ⊢
+          exact ⟨A.1, ojoin_sound_l hA.2 hA.1, hA.2⟩
+        | ret => simp at h; obtain ⟨rfl, rfl⟩ := h; exact ⟨A.1, by simp [OutIn]⟩
+        | ub => simp at h; obtain ⟨rfl, rfl⟩ := h; exact ⟨A.1, by simp [OutIn]⟩
+        | timeout => simp at h; obtain ⟨rfl, rfl⟩ := h; exact ⟨A.1, by simp [OutIn]⟩
+    | ite cnd a b =>
+      simp only [checkS] at hc; simp only [execS] at h
+      generalize hcc : checkE c s cnd = pc at hc
+      obtain ⟨ok0, vc⟩ := pc
+      generalize hec : evalE c.P c.vars σ cnd = qc at h
+      obtain ⟨rc, evc⟩ := qc
+      have C := checkE_sound c hn hσ hcc hec
+      generalize hpa : optCheck (fun st => checkS c a st) (assume c cnd true s) = pa at hc
+      obtain ⟨ok1, o1⟩ := pa
+      generalize hpb : optCheck (fun sf => checkS c b sf) (assume c cnd false s) = pb at hc
+      obtain ⟨ok2, o2⟩ := pb
+      simp at hc
+      obtain ⟨⟨⟨rfl, rfl⟩, rfl⟩, rfl⟩ := hc
+      cases rc with
+      | none => simp at h; obtain ⟨rfl, rfl⟩ := h; exact ⟨C.1 rfl, by simp [OutIn]⟩
+      | some v =>
+        simp only [] at h
+        by_cases hv : v = 0
+        · simp [hv] at h
+          subst hv
+          obtain ⟨sf, hsf, hσf⟩ := assume_sound c cnd false σ s 0 evc hn hσ hec (by simp)
+          rw [hsf] at hpb; simp only [optCheck] at hpb
+          generalize heb : execS c.P c.vars k σ b = qb at h
+          obtain ⟨r2, ev2⟩ := qb
+          simp at h; obtain ⟨rfl, rfl⟩ := h
+          have B := IH b σ sf o2 r2 ev2 hn hσf hpb heb
+          refine ⟨evOk_append (C.1 rfl) B.1, ?_⟩
+          have hB := B.2
+          cases r2 with
+          | normal e2 => simp only [OutIn] at hB ⊢; exact ⟨ojoin_sound_r hB.2 hB.1, hB.2⟩
+          | brk e2 => simp only [OutIn] at hB ⊢; exact ⟨ojoin_sound_r hB.2 hB.1, hB.2⟩
+          | cont e2 => simp only [OutIn] at hB ⊢; exact ⟨ojoin_sound_r hB.2 hB.1, hB.2⟩
+          | ret => simp [OutIn]
+          | ub => simp [OutIn]
+          | timeout => simp [OutIn]
+        · simp [hv] at h
+          obtain ⟨st, hst, hσt⟩ := assume_sound c cnd true σ s v evc hn hσ hec (by simp [hv])
+          rw [hst] at hpa; simp only [optCheck] at hpa
+          generalize hea : execS c.P c.vars k σ a = qa at h
+          obtain ⟨r1, ev1⟩ := qa
+          simp at h; obtain ⟨rfl, rfl⟩ := h
+          have A := IH a σ st o1 r1 ev1 hn hσt hpa hea
+          refine ⟨evOk_append (C.1 rfl) A.1, ?_⟩
+          have hA := A.2
+          cases r1 with
+          | normal e2 => simp only [OutIn] at hA ⊢; exact ⟨ojoin_sound_l hA.2 hA.1, hA.2⟩
+          | brk e2 => simp only [OutIn] at hA ⊢; exact ⟨ojoin_sound_l hA.2 hA.1, hA.2⟩
+          | cont e2 => simp only [OutIn] at hA ⊢; exact ⟨ojoin_sound_l hA.2 hA.1, hA.2⟩
+          | ret => simp [OutIn]
+          | ub => simp [OutIn]
+          | timeout => simp [OutIn]
+    | «while» cnd body =>
+      simp only [checkS] at hc
+      generalize findInv c (assume c cnd true) (fun s' => checkS c body s') (assigned body) loopRounds s = inv at hc
+      split at hc
+      · simp at hc
+      · rename_i hleq
+        simp at hleq
+        have hσi := leqEnv_sound hleq hσ
+        generalize hcc : checkE c inv cnd = pc at hc
+        obtain ⟨ok0, vc⟩ := pc
+        simp only [] at hc
+        cases hst : assume c cnd true inv with
+        | none =>
+          rw [hst] at hc
+          simp at hc
+          obtain ⟨rfl, rfl⟩ := hc
+          have L := loop_sound c (k + 1) cnd body inv vc AOut.bot hcc (by intro st' h'; rw [hst] at h'; simp at h')
+            (fun k' hk' => ih k' hk') (k + 1) (Nat.le_refl _) σ o evs hn hσi h
+          simpa [AOut.bot, ojoin_none_r] using L
+        | some st' =>
+          rw [hst] at hc
+          simp only [] at hc
+          generalize hcb : checkS c body st' = pb at hc
+          obtain ⟨ok1, ob⟩ := pb
+          simp only [] at hc
+          split at hc
+          · rename_i hle
+            simp at hle
+            simp at hc
+            obtain ⟨⟨rfl, rfl⟩, rfl⟩ := hc
+            exact loop_sound c (k + 1) cnd body inv vc ob hcc
+              (by intro st'' h''; rw [hst] at h''; simp at h''; subst h''; exact ⟨ob, hcb, hle.1, hle.2, rfl⟩)
+              (fun k' hk' => ih k' hk') (k + 1) (Nat.le_refl _) σ o evs hn hσi h
+          · simp at hc
+    | brk =>
+      simp [checkS] at hc; simp [execS] at h
+      obtain ⟨rfl, rfl⟩ := h; subst hc
+      exact ⟨evOk_nil _, by simp only [OutIn]; exact ⟨hσ, hn⟩⟩
+    | cont =>
+      simp [checkS] at hc; simp [execS] at h
+      obtain ⟨rfl, rfl⟩ := h; subst hc
+      exact ⟨evOk_nil _, by simp only [OutIn]; exact ⟨hσ, hn⟩⟩
+    | ret e =>
+      simp only [checkS] at hc; simp only [execS] at h
+      generalize hce : checkE c s e = p at hc
+      obtain ⟨ok, va⟩ := p
+      generalize hee : evalE c.P c.vars σ e = q at h
+      obtain ⟨r, ev⟩ := q
+      have E := checkE_sound c hn hσ hce hee
+      simp at hc
+      obtain ⟨rfl, rfl⟩ := hc
+      cases r with
+      | none => simp at h; obtain ⟨rfl, rfl⟩ := h; exact ⟨E.1 rfl, by simp [OutIn]⟩
+      | some v => simp at h; obtain ⟨rfl, rfl⟩ := h; exact ⟨E.1 rfl, by simp [OutIn]⟩
+
+theorem envIn_map {α : Type} (l : List α) (g : α → Int) (h : α → AbsVal) (hm : ∀ i, (h i).mem (g i)) : EnvIn (l.map g) (l.map h) := by
+  induction l with
+  | nil => simp [EnvIn]
+  | cons a l ih => simp [EnvIn]; exact ⟨hm a, ih⟩
+
+theorem init_sound (P : Platform) (f : Func) (args : List Int) : EnvIn (initEnv P f args) (initAbs P f) := by
+  unfold initEnv initAbs
+  apply envIn_map
+  intro i
+  split
+  · exact top_mem (conv_inTy _ _ _)
+  · exact const_mem 0
+
+theorem initEnv_length (P : Platform) (f : Func) (args : List Int) : (initEnv P f args).length = f.vars.length := by
+  simp [initEnv]
+
+/-- soundness of the validator: an accepted fact holds of every event at its occurrence, in every run -/
+theorem validate_sound (P : Platform) (f : Func) (φ : Fact) (h : validate P f φ = true) (args : List Int) (fuel : Nat) :
+    ∀ ev ∈ (run P f fuel args).2, ev.1 = φ.occ → φ.holds ev.2 := by
+  unfold validate at h
+  unfold run
+  generalize hc : checkS ⟨P, f.vars, φ⟩ f.body (initAbs P f) = p at h
+  obtain ⟨ok, out⟩ := p
+  simp at h; subst h
+  generalize he : execS P f.vars fuel (initEnv P f args) f.body = q
+  obtain ⟨o, evs⟩ := q
+  exact (stmt_sound ⟨P, f.vars, φ⟩ fuel f.body (initEnv P f args) (initAbs P f) out o evs (initEnv_length P f args)
+    (init_sound P f args) hc he).1
 
 end Cppcheck.VFV
